@@ -43,6 +43,7 @@ type Exec struct {
 	step     int
 	nEvents  int
 	viaSlice bool
+	cur      *Scenario
 }
 
 func NewExec(w io.Writer) *Exec {
@@ -767,6 +768,46 @@ func applyRef(rc *refCols, ins []Instr, ts *tableSet, mask []bool) {
 	}
 }
 
+// enumUpperRef: the built-in ToUpper on an enum column rewrites the column's value table, which may hold
+// strings that no cell shows (declared values, values of rows filtered away). The upper-casing table
+// therefore also gets every string the scenario's New steps mention, and their upper-cased forms.
+func (x *Exec) enumUpperRef(ins []Instr, ts *tableSet) {
+	use := false
+	for _, in := range ins {
+		if in.Fn.K == "builtin" && in.Fn.Sym == "ToUpper" {
+			use = true
+		}
+	}
+	if !use || x.cur == nil {
+		return
+	}
+	t := ts.get("ToUpper")
+	add := func(s string) {
+		u := t.add([]GV{&s})
+		if p, ok := u.(*string); ok && p != nil {
+			t.add([]GV{p})
+		}
+	}
+	for i := range x.cur.Steps {
+		st := &x.cur.Steps[i]
+		if st.Op != "New" {
+			continue
+		}
+		for _, d := range st.Data {
+			for _, v := range d.Strs {
+				if v != nil {
+					add(v.String())
+				}
+			}
+		}
+		for _, e := range st.Enums {
+			for _, v := range e.Vals {
+				add(v.String())
+			}
+		}
+	}
+}
+
 func zeroGV(t string) GV {
 	switch t {
 	case "int":
@@ -947,6 +988,7 @@ func (x *Exec) runOne(sc *Scenario, st *Step) Ev {
 	ev := Ev{"scn": x.scn, "prop": sc.Prop, "i": x.step, "op": st.Op, "recv": st.Recv, "out": -1, "pan": 0,
 		"obs": emptyObs, "dig": 0, "a": Ev{"_": 0}, "race": 0, "conc": 0}
 	calls0 := atomic.LoadInt64(&callCount)
+	x.cur = sc
 	func() {
 		defer func() {
 			ev["calls"] = int(atomic.LoadInt64(&callCount) - calls0)
@@ -1056,6 +1098,7 @@ func (x *Exec) dispatch(st *Step, ev Ev) {
 		qf := x.frame(st.Recv)
 		ts := newTableSet()
 		applyRef(newRefCols(qf), st.Instrs, ts, nil)
+		x.enumUpperRef(st.Instrs, ts)
 		ev["a"] = Ev{"instrs": instrsTla(st.Instrs), "tbls": ts.tla()}
 		x.result(ev, qf.Apply(instrsGo(st.Instrs)...))
 	case "FilteredApply":
